@@ -169,6 +169,31 @@ def reconfig_slice(ctx, tier, rng, run_one, quick_n=500, thorough_n=12000, per=2
         ctx.inc("reconfigured_scenarios")
 
 
+def long_run_slice(ctx, tier, rng, run_one, quick_n=12, thorough_n=120, horizons=(40, 120, 400, 1100)):
+    """Shared workload: ONE call that keeps failing for tens to more than a thousand attempts (batch jobs with max_attempts in the
+    thousands and zero-cost sleeps).  Whatever the engine keeps per call - tallies per class, the attempt number it hands to the
+    strategy, histories - has to stay right over that horizon: capped classes recur sparsely among uncapped failures, so a cap is
+    reached only after many attempts."""
+    n = max(1, (quick_n if tier == "quick" else thorough_n) // ctx.nshards)
+    for k in range(n):
+        N = horizons[(k + ctx.shard) % len(horizons)]
+        period = rng.choice([7, 13, 20, 33])
+        capped = rng.choice(["RATE_LIMIT", "CONCURRENCY", "SERVER_ERROR", "UNKNOWN"])
+        cap = rng.choice([2, 3, 5]) if N < 1000 else 10**6  # the longest runs end at max_attempts: the strategy is asked > 1000 times
+        outs = [[rng.choice(["exc", "res"]), "TRANSIENT", None] for _ in range(period)]
+        outs[rng.randrange(period)] = [rng.choice(["exc", "res"]), capped, None]
+        cfg = gen.mk_cfg(max_attempts=N, deadline_s=1.0e7, max_unknown=cap if capped == "UNKNOWN" else None, per_class={} if capped == "UNKNOWN" else {capped: cap},
+                         class_strategies=rng.sample(["TRANSIENT", capped], rng.randint(0, 2)), legacy=["default"] if k % 3 == 0 else [], use_classification=bool(k % 2))
+        place = gen.default_place()
+        place["sleeper"] = "policy" if k % 2 else "call"
+        sc = {"cfg": cfg, "place": place, "bs_kind": "sync", "sleeper_kind": "async", "timeline": bool(k % 2), "poll": False,
+              "calls": [gen.mk_call(outs, strat_values=[rng.choice([0.0, gen.G, 0.25]) for _ in range(5)])], "fault": None}
+        for e in pick_entries(rng, [x for x in rig.ENTRIES if ".ctx" not in x], 2):
+            run_one(sc, e)
+        ctx.inc("long_runs")
+        ctx.mx("longest_run_attempt_horizon", N)
+
+
 def function_threads(ctx, viol, label, make, calls, after=(), limit=60, bound=2, counter="function_thread_schedules"):
     """A callable object that is meant to be a function of its argument (a strategy, a classifier), shared by threads.
     `make()` builds a FRESH object; `calls` = one argument per thread; each thread calls the shared object once under the controlled
